@@ -790,6 +790,11 @@ class Interp:
             ga = c.get('args') or []
             if len(ga) >= 2 and ga[0] == ga[1]:
                 return args[0], args
+            # text to owned text: `String::from(c)` / `String::from("..")` / `"..".into()` is the same text as `to_string()` / `to_owned()`
+            if len(ga) >= 2:
+                dst, src = (ga[0], ga[1]) if name == 'from' else (ga[1], ga[0])
+                if dst == 'std::string::String' and src.replace("'static ", '').replace("'_ ", '') in ('char', '&str', '&std::string::String', '&mut str'):
+                    return args[0], args
         # value-preserving std conversions are transparent (refs are transparent in this domain)
         if len(args) == 1 and not c.get('local'):
             if (path_endswith(tr, 'clone::Clone') and name == 'clone' and not (r and self.prog.by_path.get(r))) or \
@@ -816,6 +821,13 @@ class Interp:
                          and self._unify_ty(cand.j['impl_self_ty'], st, cand.j.get('generics') or []) is not None]
                 if len(cands) == 1:
                     target = cands[0]
+        if target is None and path_endswith(tr, 'convert::TryInto') and name == 'try_into' and len(args) == 1 and len(c.get('args') or []) >= 2:
+            # blanket `impl<T, U: TryFrom<T>> TryInto<U> for T`: try_into(x) is U::try_from(x); follow a local TryFrom impl
+            src_ty, dst_ty = c['args'][0], c['args'][1]
+            for cand in self.prog.fns:
+                if cand.name == 'try_from' and cand.j.get('impl_self_ty') == dst_ty and path_endswith(cand.j.get('impl_trait') or '', 'convert::TryFrom') and (cand.j.get('inputs') or [None])[0] == src_ty:
+                    target = cand
+                    break
         if target is None and path_endswith(tr, 'convert::Into') and name == 'into' and len(args) == 1 and len(c.get('args') or []) >= 2:
             # blanket `impl<T, U: From<T>> Into<U> for T`: into(x) is U::from(x); follow a local From impl
             src_ty, dst_ty = c['args'][0], c['args'][1]
@@ -1065,6 +1077,39 @@ class Interp:
             v = join(v, r[0])
         return v, [e for p in ps for e in p[1]]
 
+    def _write_back(self, fn, env, t, callee_effects):
+        """out-parameters: a local callee stored through its k-th parameter (a `&mut` reference); when the argument is a reference to a
+        whole local of this body, that local holds the stored value after the call (the last such store on the callee's path)"""
+        for e in callee_effects:
+            if e[0] == '<store>' and isinstance(e[1], tuple) and e[1] and e[1][0] == 'param':
+                k_ = e[1][1] - 1
+                if k_ >= len(t['args']):
+                    continue
+                pl = op_place(t['args'][k_])
+                if pl is None or pl['p'] or not fn.locals[pl['l']]['ty'].startswith('&mut'):
+                    continue
+                root = pl['l']
+                for _i in range(3):
+                    sd_ = fn.single_def(root)
+                    if sd_ is None or sd_[1] == 'term':
+                        root = None
+                        break
+                    rv = sd_[2]
+                    if rv['k'] == 'ref' and not rv['pl']['p']:
+                        root = rv['pl']['l']
+                        break
+                    if rv['k'] == 'ref' and rv['pl']['p'] == ['deref']:
+                        root = rv['pl']['l']
+                        continue
+                    if rv['k'] == 'use' and op_place(rv['op']) is not None and not op_place(rv['op'])['p']:
+                        root = op_place(rv['op'])['l']
+                        continue
+                    root = None
+                    break
+                if root is not None and not fn.locals[root]['ty'].startswith('&'):
+                    env[root] = e[2][1]
+                    env[pl['l']] = e[2][1]
+
     def _run(self, fn, b, env, depth, out, effects, edges):
         while True:
             self.steps += 1
@@ -1078,8 +1123,33 @@ class Interp:
                         env[st['pl']['l']] = v
                     elif st['pl']['p'] == ['deref'] or all(p == 'deref' for p in st['pl']['p']):
                         # store through a reference: refs are transparent, so this overwrites the referent's value
-                        effects = effects + (('<store>', None, (env.get(st['pl']['l'], UNK), v), st.get('span')),)
-                        env[st['pl']['l']] = v
+                        l_ = st['pl']['l']
+                        old_ = env.get(l_, UNK)
+                        # which parameter the reference is (an out-parameter written by a helper is written back at the call site)
+                        tag = None
+                        src_l = l_
+                        for _i in range(3):
+                            if 1 <= src_l <= fn.arg_count:
+                                tag = ('param', src_l)
+                                break
+                            sd_ = fn.single_def(src_l)
+                            if sd_ is None or sd_[1] == 'term' or sd_[2]['k'] not in ('use', 'ref') or (sd_[2]['k'] == 'ref' and sd_[2]['pl']['p'] not in ([], ['deref'])):
+                                break
+                            nx_ = op_place(sd_[2]['op']) if sd_[2]['k'] == 'use' else sd_[2]['pl']
+                            if nx_ is None or [q for q in nx_['p'] if q != 'deref']:
+                                break
+                            src_l = nx_['l']
+                        if old_[0] == 'proj' and old_[1][0] == 'sym' and all(isinstance(q, str) for q in old_[2]):
+                            # the reference points at a field of a symbolic object (`let Self { flag, .. } = self; *flag = x`): a field store
+                            effects = effects + (('<store-field>', tag, (old_[1], ('c', tuple(old_[2])), v), st.get('span')),)
+                        else:
+                            effects = effects + (('<store>', tag, (old_, v), st.get('span')),)
+                        env[l_] = v
+                        # the reference was taken to a whole local of this body (`let r = &mut x; *r = v`, also after inlining a helper
+                        # with an out-parameter): the local holds the new value
+                        sd_ = fn.single_def(l_)
+                        if sd_ is not None and sd_[1] != 'term' and sd_[2]['k'] == 'ref' and not sd_[2]['pl']['p']:
+                            env[sd_[2]['pl']['l']] = v
                     else:
                         path = tuple((p.get('name') if p.get('name') is not None else p.get('f')) for p in st['pl']['p'] if isinstance(p, dict) and 'f' in p)
                         effects = effects + (('<store-field>', None, (env.get(st['pl']['l'], UNK), ('c', path), v), st.get('span')),)
@@ -1112,12 +1182,14 @@ class Interp:
                         return
                     if len(live) == 1:
                         effects = effects + (eff,) + live[0][1]
+                        self._write_back(fn, env, t, live[0][1])
                         if not t['dest']['p']:
                             env[t['dest']['l']] = live[0][0]
                         nb = t['target']
                     else:
                         for val, e2 in live:
                             env2 = dict(env)
+                            self._write_back(fn, env2, t, e2)
                             if not t['dest']['p']:
                                 env2[t['dest']['l']] = val
                             self._run(fn, t['target'], env2, depth, out, effects + (eff,) + e2, dict(edges))
